@@ -89,8 +89,8 @@ def call(name, *args, ns=()):
     return ("Call", I(name, ns), ("[]",) + tuple(args))
 
 
-def named(name, param):
-    return ("NamedParam", I(name), param)
+def named(name, param, ns=()):
+    return ("NamedParam", I(name, ns), param)
 
 
 def lam(owner, op, var=None, body=None):
